@@ -380,6 +380,40 @@ mut('m68-weak-from-snapshot-twice', ['C03', 'C04'], W, """    fn from(value: Sna
         let _ = value.downgrade().counted();
         value.downgrade().counted()""", 'Weak::from(Snapshot) counts twice and forgets... (drops) one: harmless control', expect='unknown')
 mut('m69-take-leaves-content', ['C01', 'C04', 'C08'], S, """        Rc::from_raw(core::mem::take(self.link.get_mut()))""", """        Rc::from_raw(*self.link.get_mut())""", 'AtomicRc::take returns the content but leaves it in the link: the share is released twice')
+# ---- sites the coverage measurement found unexercised by the quick tier (now exercised)
+mut('m70-first-downgrade-loser-gives-up', ['C03'], U, """                Ok(_) => return,
+                Err(curr) => old = State::from_raw(curr),""", """                Ok(_) => return,
+                Err(_) => return,""", 'a first downgrade whose flag-setting CAS loses returns without counting')
+mut('m71-cas-weak-no-stamp-retry', ['C08'], S, """                Err(current_raw) => {
+                    if current_raw.ptr_eq(expected_raw) {
+                        expected_raw = current_raw;
+                        vpoint!(Link, &self.link as *const _);
+                    } else {
+                        let current = Snapshot::from_raw(current_raw, guard);
+                        return Err(CompareExchangeError { desired, current });
+                    }
+                }
+            }
+        }
+    }
+
+    /// Overwrites the tag value""", """                Err(current_raw) => {
+                    let current = Snapshot::from_raw(current_raw, guard);
+                    return Err(CompareExchangeError { desired, current });
+                }
+            }
+        }
+    }
+
+    /// Overwrites the tag value""", 'compare_exchange_weak fails when the content differs from expected in its stamp only: within the contract of the weak variant (it may fail spuriously), so the cell model tolerates it', expect='unknown')
+mut('m72-finalize-forgets', ['C04'], S, """                RcInner::decrement_strong(cnt, 1, Some(guard));
+            }
+        }
+        forget(self);""", """                let _ = (cnt, guard);
+            }
+        }
+        forget(self);""", 'Rc::finalize releases nothing')
+mut('m73-atomicrc-pointer-fmt-raw', ['C11'], S, """        Pointer::fmt(&self.link.load(Ordering::Relaxed), f)""", """        Pointer::fmt(&((self.link.load(Ordering::Relaxed).as_raw() as usize | self.link.load(Ordering::Relaxed).tag()) as *const u8), f)""", 'AtomicRc {:p} prints the address with the tag in it')
 # ---- C19
 mut('m60-eq-ptr-eq', ['C19'], S, '''impl<T: RcObject + PartialEq> PartialEq for Rc<T> {
     #[inline(always)]
